@@ -335,6 +335,10 @@ func ruleKey(c *Ctx) {
 				t = t.Args[0]
 			}
 			if t != nil && t.Op == "init" && t.Args[0].Op == "fa" {
+				// the field of the *request* (url.URL has a Host and a Path of its own)
+				if o := t.Args[0].Obj; o != nil && o.Pkg() != nil && o.Pkg().Path() != "net/http" {
+					return o.Pkg().Name() + "." + t.Args[0].Name
+				}
 				return t.Args[0].Name
 			}
 			if t != nil && t.Op == "call" && t.Fn != nil && t.Fn.String() == "(*net/url.URL).String" {
